@@ -456,6 +456,7 @@ func replayConfirms(self, path string) bool {
 
 // Replay runs one violation file in-process and reports.
 func Replay(path string, quiet bool) int {
+	capAddressSpace() // as in a worker: running out of memory is an observation, not a threat to the machine
 	b, err := os.ReadFile(path)
 	if err != nil {
 		fmt.Fprintln(os.Stderr, err)
